@@ -322,9 +322,14 @@ func SSAEquiv(a, b ssa.Value) bool {
 	return false
 }
 
-// ContainsEquiv reports whether the closure visited a value equivalent to v.
+// ContainsEquiv reports whether the closure visited a value equivalent to v. A value that is one
+// component of a multi-result call is also considered present when the closure visited that call
+// (`whole, frac := split(total)`: frac is computed together with whole from the same operand).
 func (d *DepSet) ContainsEquiv(v ssa.Value) bool {
 	if d.Values[v] {
+		return true
+	}
+	if ex, ok := v.(*ssa.Extract); ok && d.Values[ex.Tuple] {
 		return true
 	}
 	for w := range d.Values {
